@@ -254,3 +254,33 @@ Definition covers (n : N) (l : list N) : Prop := forall k, 1 <= k <= n -> In k l
 (* the numbers 1..n not in l, ascending *)
 Definition missing_of (n : N) (l : list N) : list N :=
   filter (fun k => negb (existsb (N.eqb k) l)) (map (fun i => N.of_nat i + 1) (seq 0 (N.to_nat n))).
+
+(* ---------------- more specification vocabulary ---------------- *)
+(* a well-formed map: one entry per message id (a Go map; [] and every reachable state are) *)
+Definition wf (s : pstate) : Prop := NoDup (map fst s).
+
+Definition nonempty (b : list N) : Prop := b <> [].
+
+(* an event that may follow packet 1 (received at t1) of the transfer (X, bodies): not later than
+   60 s after it, and one of the kinds of ev_ok *)
+Definition ok_after (X : N) (bodies : list (list N)) (t1 : N) (te : N * event) : Prop :=
+  fst te <= t1 + 60000 /\ ev_ok X (len bodies) bodies (snd te).
+
+(* events that cannot start a transfer of X: anything but a sub-package of X numbered 1 *)
+Definition no_start (X : N) (e : event) : Prop :=
+  match e with EvMsg m => m_id m = X -> m_sum m <> 0 -> m_no m <> 1 | EvEnd => True end.
+
+(* the re-requests for X in the output of one event *)
+Definition rr_for (X : N) (o : eout) : list rereq :=
+  match o with ORereq l => filter (fun r => rr_id r =? X) l | _ => [] end.
+
+(* a sub-package of X that completePack stores in state s: packet 1, or a number within the table *)
+Definition stored (X : N) (s : pstate) (m : msg) : Prop :=
+  m_id m = X /\ m_sum m <> 0 /\
+  (m_no m = 1 \/ exists x, find X s = Some x /\ 1 <= m_no m <= len (x_slots x)).
+
+Fixpoint ascending (l : list N) : Prop :=
+  match l with
+  | [] => True
+  | a :: t => (forall b, In b t -> a < b) /\ ascending t
+  end.
